@@ -204,7 +204,31 @@ func c09Prop(rec *ev.Recorder) func(t *rapid.T) {
 			return
 		}
 		g := &gen.G{T: t}
-		stmts := g.Session()
+		var stmts []string
+		if rapid.IntRange(0, 5).Draw(t, "exits") == 0 {
+			// early exits out of several live iterator contexts at once, at every call depth up to 40
+			// (and with frames of different widths in between): nothing may stay registered anywhere
+			k := rapid.IntRange(0, 9).Draw(t, "k")
+			pad := ""
+			for i := rapid.IntRange(0, 4).Draw(t, "pad"); i > 0; i-- {
+				pad += ", " + letters("zp", i)
+			}
+			exits := []string{
+				"for i <- fromto(0, 4) {\nfor j <- fromto(0, 4) {\nif i * j == k return [i, j]\n}\n}",
+				"for i, j <- fromto(0, 5), fromto(3, 9) if i + j > k return [i, j]",
+				"for i <- fromto(0, 3) for j <- fromto(0, 3) for l <- fromto(0, 3) if i + j + l == k return l",
+				"for i, j, l <- fromto(0, 5), elems(\"abcde\"), fromto(9, 20) if i == k % 4 return j",
+				"for i <- g(4) {\nfor j, l <- g(3), fromto(0, 9) {\nif i + j == k % 5 return [i, l]\n}\n}",
+			}
+			stmts = append(strings.Split(c09Prelude, "\n----\n"),
+				"leaf = (k) -> {\n"+rapid.SampledFrom(exits).Draw(t, "exit")+"\n}",
+				"under = (d, k"+pad+") -> if d <= 0 leaf(k) else under(d - 1, k"+pad+")",
+				fmt.Sprintf("{\nzr = []\nfor zd <- fromto(0, 41) zr = zr + [under(zd, %d%s)]\n#zr\n}", k, strings.Repeat(", 0", strings.Count(pad, ","))),
+				fmt.Sprintf("under(%d, %d%s)", rapid.IntRange(0, 40).Draw(t, "d"), k, strings.Repeat(", 0", strings.Count(pad, ","))),
+				"for v <- g(2) for w <- g(2) v + w")
+		} else {
+			stmts = g.Session()
+		}
 		discard := rapid.Bool().Draw(t, "discard")
 		text := joinStmts(stmts)
 		o := diffSession(stmts, diffOpts{discard: discard})
